@@ -80,7 +80,6 @@ func init() {
 		Run:            run,
 		MinNontrivial:  func(t core.Tier) int { return 150 },
 		CaseTimeoutSec: 180,
-		MaxWorkers:     8,
 	})
 }
 
@@ -254,6 +253,11 @@ func (g *ruleGen) fixDeps(gs *groupSpec) {
 				ok = true
 			}
 		}
+		for j := i; j < len(gs.rules); j++ {
+			if gs.rules[j].name == d { // a later instance of that name: would be a backward dependency
+				ok = false
+			}
+		}
 		if !ok {
 			n := g.newRule(nil)
 			n.name, n.lbls = gs.rules[i].name, gs.rules[i].lbls
@@ -321,16 +325,21 @@ func (g *ruleGen) mutate(cfg []groupSpec, ver int, live bool) []groupSpec {
 		case op == 6 && nr > 1 && len(out)-lo > 1: // move to another group
 			k := first + r.IntN(nr)
 			mv := gs.rules[k]
-			gs.rules = append(gs.rules[:k:k], gs.rules[k+1:]...)
 			gj := lo + r.IntN(len(out)-lo)
 			if gj == gi {
 				gj = lo + (gi-lo+1)%(len(out)-lo)
 			}
+			if !live && out[gj].offset != gs.offset {
+				// with different query offsets the two groups would write the shared series out of
+				// order (and the later write is dropped by the storage): not generated
+				continue
+			}
+			gs.rules = append(gs.rules[:k:k], gs.rules[k+1:]...)
 			out[gj].rules = append(out[gj].rules, mv)
 			changed[gj] = true
 		case op == 7 && nr > 0: // duplicate a rule (same name, labels, expression)
 			k := first + r.IntN(nr)
-			gs.rules = append(gs.rules, gs.rules[k])
+			gs.rules = append(gs.rules[:k+1:k+1], append([]ruleSpec{gs.rules[k]}, gs.rules[k+1:]...)...)
 		case op == 8 && live && len(out)-lo > 1: // remove a whole group
 			out = append(out[:gi:gi], out[gi+1:]...)
 			nc := map[int]bool{}
@@ -595,12 +604,14 @@ func runDeterministic(c *core.Case) {
 			g.rules = append(g.rules, rg.newRule(g.rules))
 		}
 		if r.IntN(8) == 0 {
-			g.rules = append(g.rules, g.rules[r.IntN(len(g.rules))])
+			k := r.IntN(len(g.rules))
+			g.rules = append(g.rules[:k+1:k+1], append([]ruleSpec{g.rules[k]}, g.rules[k+1:]...)...)
 		}
+		rg.fixDeps(&g)
 		cfg = append(cfg, g)
 	}
 
-	// evaluation times: group gi evaluates at ts_j + gi seconds
+	// evaluation times: group gi evaluates at ts_j + gi*3.7 seconds (sample times of different groups never coincide)
 	t0 := time.Unix(1_650_000_000+r.Int64N(10_000_000), 0).UTC()
 	if r.IntN(3) == 0 {
 		t0 = t0.Add(time.Duration(r.IntN(1000)) * time.Millisecond)
@@ -763,7 +774,7 @@ func runDeterministic(c *core.Case) {
 			fmt.Fprintf(&digest, "R%d;", j)
 		}
 		for gi, g := range cfg {
-			et := ts[j].Add(time.Duration(gi) * time.Second)
+			et := ts[j].Add(time.Duration(gi) * 3700 * time.Millisecond)
 			te := et.Add(-g.offset).UnixMilli()
 			inj.mu.Lock()
 			curT = te
@@ -795,6 +806,7 @@ func runDeterministic(c *core.Case) {
 	prevOut := map[string]map[string]bool{}   // group key + "#" + rule index → series of the previous successful evaluation
 	pendingStale := map[string]map[string]string{} // group key → series (→ rule name) of rule instances removed by a reload
 	hazard := map[string]map[string]bool{}      // group key → rule names that lost an instance in the last reload
+	maybeStale := map[string]map[string]bool{}  // group key → series that may be marked stale at the next evaluation (see applyReload)
 	applyReload := func(rl reloadRec) {
 		oldBy := map[string]groupSpec{}
 		for _, g := range rl.old {
@@ -820,6 +832,21 @@ func runDeterministic(c *core.Case) {
 				}
 			}
 			for k, l := range avail {
+				if len(l) > 0 {
+					// duplicates are indistinguishable by name and labels: when one of several old
+					// instances is removed, "all its series" is ambiguous, so the series of the
+					// surviving same-identity instances may (but need not) be marked stale as well
+					for i, ru := range og.rules {
+						if ru.key() == k {
+							for s := range prevOut[fmt.Sprintf("%s#%d", og.key(), i)] {
+								if maybeStale[ng.key()] == nil {
+									maybeStale[ng.key()] = map[string]bool{}
+								}
+								maybeStale[ng.key()][s] = true
+							}
+						}
+					}
+				}
 				for _, i := range l {
 					if hazard[ng.key()] == nil {
 						hazard[ng.key()] = map[string]bool{}
@@ -862,16 +889,36 @@ func runDeterministic(c *core.Case) {
 					}
 				}
 			}
+			// series for which a staleness marker may legitimately have won the timestamp: another
+			// rule of the group lost the series in this evaluation, or a reload removed an instance
+			staleOK := map[string]bool{}
+			for k := range g.rules {
+				if failed[k] {
+					continue
+				}
+				for s := range prevOut[fmt.Sprintf("%s#%d", g.key(), k)] {
+					if _, still := res[k].out[s]; !still {
+						staleOK[s] = true
+					}
+				}
+			}
+			for s := range pendingStale[g.key()] {
+				staleOK[s] = true
+			}
+			for s := range maybeStale[g.key()] {
+				staleOK[s] = true
+			}
 			for k, ru := range g.rules {
 				pk := fmt.Sprintf("%s#%d", g.key(), k)
 				exempt := exemptName[fmt.Sprintf("%s|%d", ru.name, ev.te)]
+				c.Logf("oracle: step %d %s te=%d rule#%d %s (%s): failed=%v(%s) exempt=%v out=%v prev=%v pending=%v", ev.step, g.key(), ev.te, k, ru.name, ru.expr, failed[k], res[k].fail, exempt, keysOf(setOf(res[k].out)), keysOf(prevOut[pk]), pendingStale[g.key()])
 				if failed[k] {
 					c.Seen("failed_evaluations", res[k].fail+map[bool]string{true: "+injected", false: ""}[res[k].fail == ""])
 					for s := range union(res[k].out, prevOut[pk]) {
-						if _, pend := pendingStale[g.key()][s]; pend || len(claimed[s]) > 0 || exempt {
+						if len(claimed[s]) > 0 || exempt {
 							continue
 						}
-						if got, ok := D[s][ev.te]; ok {
+						if got, ok := D[s][ev.te]; ok && !(isStale(got) && staleOK[s]) {
 							c.Violatef(kFailedStored, "group %s rule %s (%s) failed at %d (%s) but series %s has sample %s at that time", g.key(), ru.name, ru.expr, ev.te, res[k].fail, s, got.ValKey())
 						}
 					}
@@ -900,7 +947,9 @@ func runDeterministic(c *core.Case) {
 							match = true
 						}
 					}
-					if !match && !(len(claimed[s]) > 1 && isStale(got)) {
+					if !match && isStale(got) && staleOK[s] {
+						c.Count("value_lost_to_staleness_marker_of_other_rule(accepted)", 1)
+					} else if !match {
 						kind := kValue
 						if ru.depOn != "" {
 							kind = kDepValue
@@ -920,8 +969,7 @@ func runDeterministic(c *core.Case) {
 					if len(claimed[s]) > 0 {
 						continue
 					}
-					got, ok := D[s][ev.te]
-					if !ok || !isStale(got) {
+					if !staleAtOrBefore(D[s], ev.te) {
 						c.Violatef(kStaleMissing, "group %s rule %s (%s) at %d: series %s was produced by the previous successful evaluation, is not produced now, but has no staleness marker at this time (has: %v)", g.key(), ru.name, ru.expr, ev.te, s, sampleAt(D[s], ev.te))
 					} else {
 						w.nStale++
@@ -944,8 +992,7 @@ func runDeterministic(c *core.Case) {
 					if len(claimed[s]) > 0 {
 						continue
 					}
-					got, ok := D[s][ev.te]
-					if !ok || !isStale(got) {
+					if !staleAtOrBefore(D[s], ev.te) {
 						c.Violatef(kRemovedStale, "group %s at %d: series %s belongs to a rule instance removed by the last reload but has no staleness marker at the group's next evaluation (has: %v)", g.key(), ev.te, s, sampleAt(D[s], ev.te))
 					} else {
 						w.nStale++
@@ -955,6 +1002,9 @@ func runDeterministic(c *core.Case) {
 				delete(pendingStale, g.key())
 			}
 			delete(hazard, g.key())
+			if !cleanupFails {
+				delete(maybeStale, g.key())
+			}
 		}
 	}
 	// stored ⊆ offered
@@ -1025,6 +1075,20 @@ func timesOf(m map[int64]tsdbx.Sample) []int64 {
 	}
 	sort.Slice(ts, func(i, j int) bool { return ts[i] < ts[j] })
 	return ts
+}
+
+// staleAtOrBefore: the series is stale at t, i.e. its last sample with time <= t is a staleness
+// marker (at t itself, or earlier when a marker of another rule already ended the series and
+// nothing was stored since).
+func staleAtOrBefore(m map[int64]tsdbx.Sample, t int64) bool {
+	best := int64(math.MinInt64)
+	found := false
+	for x := range m {
+		if x <= t && x >= best {
+			best, found = x, true
+		}
+	}
+	return found && isStale(m[best])
 }
 
 func sampleAt(m map[int64]tsdbx.Sample, t int64) string {
